@@ -37,6 +37,7 @@ func expandC13(_ *testing.T, seed uint64, tier string) []*core.Plan {
 		p.SetKnob("stall", 1)
 	}
 	p.Yield = r.Pick(0, 0, 4, 16)
+	p.SetKnob("creds", r.Pick(0, 0, 0, 1))
 	tag := 0
 	for i := 2; i <= n; i++ {
 		clean := 0
@@ -50,6 +51,16 @@ func expandC13(_ *testing.T, seed uint64, tier string) []*core.Plan {
 		}
 		if r.Chance(1, 5) {
 			p.Items = append(p.Items, core.Item{K: "die", P: r.Range(1, i)})
+		}
+		if p.Knob("creds", 0) == 1 && r.Chance(1, 4) {
+			// somebody presents the id with a wrong password: refused, and nobody
+			// who holds the id legitimately is disturbed by it
+			p.Items = append(p.Items, core.Item{K: "intrude", P: 100 + i})
+		}
+		if p.Knob("gate", 0) == 1 && r.Chance(1, 12) {
+			// the kill timeout passes while backend calls (the displaced client's
+			// Terminate among them) are still held at the gate
+			p.Items = append(p.Items, core.Item{K: "killwait"})
 		}
 	}
 	// interleave: shuffle lightly so that contenders are not strictly ordered
@@ -71,12 +82,19 @@ func runC13(t *testing.T, p *core.Plan) *core.Result {
 	cfg.ParPublishes = 64
 	allUnclean := p.Knob("unclean", 0) == 1
 	wills := p.Knob("wills", 0) == 1
+	creds := p.Knob("creds", 0) == 1
+	if creds {
+		cfg.Credentials = map[string]string{"u1": "u1-pw"}
+	}
 	var w *World
 	ptxt := core.Bubble(t, p.Seed, p.Yield, func() {
 		w = NewWorld(cfg, p.Seed, res)
 		src := w.NewPeer("src")
 		c := packet.NewConnect()
 		c.ClientID, c.CleanSession = "src", true
+		if creds {
+			c.Username, c.Password = "u1", "u1-pw"
+		}
 		src.Send(c)
 		contenders := map[int]*Peer{}
 		var order []*Peer
@@ -85,6 +103,12 @@ func runC13(t *testing.T, p *core.Plan) *core.Result {
 			pr := w.NewPeer("X")
 			cc := packet.NewConnect()
 			cc.ClientID, cc.CleanSession = "X", clean
+			if creds {
+				cc.Username, cc.Password = "u1", "u1-pw"
+				if slot >= 100 {
+					cc.Password = "wrong"
+				}
+			}
 			if wills {
 				cc.Will = &packet.Message{Topic: "w/x", Payload: MsgPayload(900000+pr.Idx, 0), QOS: 1}
 			}
@@ -183,6 +207,14 @@ func runC13(t *testing.T, p *core.Plan) *core.Result {
 					if pr := contenders[it.P]; pr != nil && !pr.EOF {
 						scriptDied[pr] = true
 						pr.Drop()
+					}
+				case "intrude":
+					contend(it.P, false)
+					res.Count("refused_contenders", 1)
+				case "killwait":
+					if len(w.parked) > 0 {
+						w.AdvanceRaw(cfg.KillTimeout + 200*time.Millisecond)
+						res.Count("kill_timeouts_while_gated", 1)
 					}
 				}
 			case "gate":
@@ -343,7 +375,16 @@ func judgeC13(w *World, order []*Peer, scriptDied map[*Peer]bool, src *Peer, all
 			res.Violate("C13", "C13.final-state", "limbo", fmt.Sprintf("connection %d is neither connected nor closed after the kill timeout has passed", pr.Idx))
 		}
 	}
-	if last != nil && !scriptDied[last] && !last.Connected() {
+	// a take-over that ran into the kill timeout (the displaced client's teardown
+	// was held up for longer than that) legitimately ends with the newcomer
+	// refused and the displaced client gone: nobody holds the id
+	killTimeout := false
+	for _, e := range w.Hist {
+		if e.K == EvBkReturn && e.Call == "Setup" && e.Err != nil && strings.Contains(e.Err.Error(), "kill timeout") {
+			killTimeout = true
+		}
+	}
+	if last != nil && !scriptDied[last] && !last.Connected() && !killTimeout {
 		res.Violate("C13", "C13.final-state", "winner-lost", fmt.Sprintf("connection %d was the last one acknowledged for the id and did not drop, but is not connected at the end", last.Idx))
 	}
 	if live > 1 {
